@@ -564,6 +564,26 @@ class Mem:
         return POISON               # uninitialised / poison / partially unspecified bytes
 
 
+def agg_fill(t: str, leaf):
+    """a value of type t whose scalar leaves are all `leaf` (0 -> zero / null, POISON -> undef)"""
+    if _STRUCT_RE.match(t):
+        return [agg_fill(f, leaf) for f in struct_fields(t)]
+    m = _ARR_RE.match(t)
+    if m:
+        return [agg_fill(m.group(2), leaf) for _ in range(int(m.group(1)))]
+    if _VEC_RE.match(t):
+        return [leaf] * _vec(t)[0]
+    if t == PTR and leaf == 0:
+        return ("null",)
+    return leaf
+
+
+def agg_set(agg, pos, val):
+    agg = list(agg)
+    agg[pos[0]] = val if len(pos) == 1 else agg_set(agg[pos[0]], pos[1:], val)
+    return agg
+
+
 def operand_types(o) -> list:
     return o[3][:-1]
 
@@ -646,25 +666,16 @@ def sem_op(o, v: list, mem: Mem, prog, glob: dict, depth: int):
             return v[0][1]
         return POISON               # an integer without provenance: any access is UB
     if name == "llvm.mlir.zero":
-        t = tys[0]
-        if t == PTR:
-            return ("null",)
-        if _STRUCT_RE.match(t):
-            return [("null",) if f == PTR else 0 for f in struct_fields(t)]
-        raise RefError(t)
+        return agg_fill(tys[0], 0)
     if name == "llvm.mlir.undef":
-        t = tys[0]
-        if _STRUCT_RE.match(t):
-            return [POISON] * len(struct_fields(t))
-        if _VEC_RE.match(t):
-            return [POISON] * _vec(t)[0]
-        return POISON
+        return agg_fill(tys[0], POISON)
     if name == "llvm.insertvalue":
-        agg = list(v[1])
-        agg[x["pos"][0]] = v[0]
-        return agg
+        return agg_set(v[1], x["pos"], v[0])
     if name == "llvm.extractvalue":
-        return v[0][x["pos"][0]]
+        r = v[0]
+        for k in x["pos"]:
+            r = r[k]
+        return r
     if name == "llvm.insertelement":
         if v[2] is POISON or v[2] >= len(v[1]):
             return [POISON] * len(v[1])
@@ -801,7 +812,16 @@ def run_ref(prog, args: list):
     glob = {}
     for gname, gty, ginit in prog.get("globals", ()):
         n = size_align(gty)[0]
-        glob[gname] = mem.alloc(n, None if ginit is None else list(int(ginit).to_bytes(n, "little")))
+        if ginit is None:
+            cells = None
+        elif isinstance(ginit, str):
+            cells = list(ginit.encode())
+        elif isinstance(ginit, (list, tuple)):
+            es = n // len(ginit)
+            cells = [b for e in ginit for b in int(e).to_bytes(es, "little")]
+        else:
+            cells = list(int(ginit).to_bytes(n, "little"))
+        glob[gname] = mem.alloc(n, cells)
     r = run_func(prog, list(args), mem, glob)
     if isinstance(r, (tuple, list)):
         raise RefError("aggregate / pointer returned")
@@ -853,6 +873,8 @@ def op_text(o, fname: str = "") -> str:
     if name == "llvm.select":
         return f"{lhs}{name} {A[0]}, {A[1]}, {A[2]} : i1, {tys[1]}"
     if name == "llvm.mlir.constant":
+        if var == "unsigned":
+            return f"{lhs}{name}({x} : {tys[0]}) : {tys[0]}"
         return f"{lhs}{name}({const_text(tys[0], x)}) : {tys[0]}"
     if name in ("llvm.mlir.zero", "llvm.mlir.undef"):
         return f"{lhs}{name} : {tys[0]}"
@@ -879,9 +901,9 @@ def op_text(o, fname: str = "") -> str:
         ib = " inbounds" if x.get("inbounds") else ""
         return f"{lhs}{name}{ib} {A[0]}[{idx}] : ({', '.join(tys[:-1])}) -> !llvm.ptr, {x['elem']}"
     if name == "llvm.insertvalue":
-        return f"{lhs}{name} {A[0]}, {A[1]}[{x['pos'][0]}] : {tys[1]}"
+        return f"{lhs}{name} {A[0]}, {A[1]}[{', '.join(str(k) for k in x['pos'])}] : {tys[1]}"
     if name == "llvm.extractvalue":
-        return f"{lhs}{name} {A[0]}[{x['pos'][0]}] : {tys[0]}"
+        return f"{lhs}{name} {A[0]}[{', '.join(str(k) for k in x['pos'])}] : {tys[0]}"
     if name == "llvm.insertelement":
         return f"{lhs}{name} {A[0]}, {A[1]}[{A[2]} : {tys[2]}] : {tys[1]}"
     if name == "llvm.shufflevector":
@@ -911,7 +933,15 @@ def op_text(o, fname: str = "") -> str:
 def func_text(prog, fname: str) -> str:
     out = []
     for gname, gty, ginit in prog.get("globals", ()):
-        init = f"({const_text(gty, ginit)})" if ginit is not None else "()"
+        if ginit is None:
+            init = "()"
+        elif isinstance(ginit, str):
+            init = f'("{ginit}")'
+        elif isinstance(ginit, (list, tuple)):
+            m = _ARR_RE.match(gty)
+            init = f"(dense<[{', '.join(str(sx(e, INT_W[m.group(2)])) for e in ginit)}]> : tensor<{m.group(1)}x{m.group(2)}>)"
+        else:
+            init = f"({const_text(gty, ginit)})"
         out.append(f"  llvm.mlir.global internal @{fname}_{gname}{init} {{addr_space = 0 : i32}} : {gty}")
     funcs = [(fname, prog)]
     callees = [(f"{fname}_{k}", c) for k, c in prog.get("callees", {}).items()]
@@ -1122,6 +1152,9 @@ def schemas(ints=INTS, flts=FLTS, level: str = "full") -> list[tuple]:
         S.append(("llvm.select", "none", ("i1", t, t), t, None))
         for c in (const_values(t)[:3] if core else const_values(t)):
             S.append(("llvm.mlir.constant", "-", (), t, c))
+        if not core and is_int(t) and INT_W[t] > 1:       # the same bit patterns spelled as unsigned literals
+            S.append(("llvm.mlir.constant", "unsigned", (), t, mask(INT_W[t])))
+            S.append(("llvm.mlir.constant", "unsigned", (), t, 1 << (INT_W[t] - 1)))
     return S
 
 
@@ -1490,6 +1523,21 @@ def mem_programs():
         q = b.gep(s, p, [1])
         b.store(t, "a0", q)
         yield b.ret(b.load(t, q), t)
+    # store / load at a type that differs from the alloca's element type (pointers are opaque)
+    for s, t in (("i32", "f32"), ("i64", "f64"), ("f64", "i64"), ("i64", "i8"), ("f32", "i32")):
+        b = PB([t], t, "llvm.store|type-differs-from-alloca-element", "mem")
+        p = b.alloca(s, 1)
+        b.store(t, "a0", p)
+        yield b.ret(b.load(t, p), t)
+    # number of allocated elements computed at run time
+    for t in SCALARS:
+        b = PB([t, "i32"], t, "llvm.alloca|dynamic-count", "mem")
+        m = b.op("llvm.and", "none", ["i32", "i32"], "i32", ["a1", b.const("i32", 3)])
+        n = b.op("llvm.add", "none", ["i32", "i32"], "i32", [m, b.const("i32", 1)])
+        p = b.op("llvm.alloca", "-", ["i32"], PTR, [n], {"elem": t, "align": None})
+        q = b.gep(t, p, ["s"], [m], ["i32"])
+        b.store(t, "a0", q)
+        yield b.ret(b.load(t, q), t)
     b = PB([], "i64", "llvm.mlir.zero|pointer", "mem")
     z = b.op("llvm.mlir.zero", "-", [], PTR, [])
     yield b.ret(b.op("llvm.ptrtoint", "none", [PTR], "i64", [z]), "i64")
@@ -1591,6 +1639,29 @@ def misc_programs():
             s0 = b.op("llvm.mlir.zero", "-", [], st, [])
             s1 = b.op("llvm.insertvalue", "-", [u, st], st, ["a0", s0], {"pos": [1]})
             yield b.ret(b.op("llvm.extractvalue", "-", [st], t, [s1], {"pos": [0]}), t)
+    # nested aggregate positions
+    nst = "!llvm.struct<(i8, !llvm.array<2 x i32>)>"
+    for k in (0, 1):
+        b = PB(["i32", "i32", "i8"], "i32", "llvm.insertvalue|nested-position", "misc")
+        s0 = b.op("llvm.mlir.undef", "-", [], nst, [])
+        s1 = b.op("llvm.insertvalue", "-", ["i32", nst], nst, ["a0", s0], {"pos": [1, 0]})
+        s2 = b.op("llvm.insertvalue", "-", ["i8", nst], nst, ["a2", s1], {"pos": [0]})
+        s3 = b.op("llvm.insertvalue", "-", ["i32", nst], nst, ["a1", s2], {"pos": [1, 1]})
+        yield b.ret(b.op("llvm.extractvalue", "-", [nst], "i32", [s3], {"pos": [1, k]}), "i32")
+    # globals with aggregate initialisers
+    for k in range(4):
+        b = PB(["i32"], "i32", "llvm.mlir.global|dense-array-initialiser", "misc")
+        p = b.op("llvm.mlir.addressof", "-", [], PTR, [], {"global": "g"})
+        r = b.load("i32", b.gep("!llvm.array<4 x i32>", p, [0, k]))
+        b.ret(b.op("llvm.xor", "none", ["i32", "i32"], "i32", [r, "a0"]), "i32")
+        b.p["globals"] = [["g", "!llvm.array<4 x i32>", [7, 0xFFFFFFFF, 0x80000000, 42]]]
+        yield b.p
+        b = PB(["i8"], "i8", "llvm.mlir.global|string-initialiser", "misc")
+        p = b.op("llvm.mlir.addressof", "-", [], PTR, [], {"global": "g"})
+        r = b.load("i8", b.gep("i8", p, [k]))
+        b.ret(b.op("llvm.xor", "none", ["i8", "i8"], "i8", [r, "a0"]), "i8")
+        b.p["globals"] = [["g", "!llvm.array<4 x i8>", "Hey!"]]
+        yield b.p
     # vectors: two lanes packed into one integer
     for et, it in (("i32", "i64"), ("f32", "i64")):
         vt = f"vector<2x{et}>"
@@ -1601,6 +1672,10 @@ def misc_programs():
                 v1 = b.op("llvm.insertelement", "-", [et, vt, idxt], vt, ["a0", u, b.const(idxt, order[0])])
                 v2 = b.op("llvm.insertelement", "-", [et, vt, idxt], vt, ["a1", v1, b.const(idxt, order[1])])
                 yield b.ret(b.op("llvm.bitcast.vec", "-", [vt], it, [v2]), it)
+        b = PB([et, et, "i32"], it, "llvm.insertelement|dynamic-index", "misc")
+        k0 = b.const(vt, [cval(et, 1), cval(et, 3)])
+        v1 = b.op("llvm.insertelement", "-", [et, vt, "i32"], vt, ["a0", k0, "a2"])
+        yield b.ret(b.op("llvm.bitcast.vec", "-", [vt], it, [v1]), it)
         for m in ((0, 1), (1, 0), (0, 0), (2, 1), (3, 2), (1, 3)):
             b = PB([et, et], it, "llvm.shufflevector|two-lanes", "misc")
             u = b.op("llvm.mlir.undef", "-", [], vt, [])
@@ -1683,7 +1758,7 @@ def rt() -> dict:
         ctx.load_dialect(Builtin)
         ctx.load_dialect(LLVM)
         _RT.update(B=B, target=B.Target.from_default_triple(), ctx=ctx, Parser=Parser,
-                   convert=convert_module, wrappers={}, unit={}, module_seen=set())
+                   convert=convert_module, wrappers={}, unit={}, module_seen=set(), bad_units=set())
     return _RT
 
 
@@ -1779,7 +1854,7 @@ def err_line(msg: str) -> str:
 def err_class(msg: str, nwords: int = 7) -> str:
     line = err_line(msg)
     line = re.sub(r'%"[^"]*"|@"[^"]*"|%[\w.]+|@[\w.]+|\'[^\']*\'', " ", line)
-    words = re.findall(r"[A-Za-z][A-Za-z_]+", line)
+    words = [w for w in re.findall(r"[A-Za-z][A-Za-z_]+", line) if w not in ("float", "double", "half", "ptr", "void", "label")]
     return "-".join(w.lower() for w in words[:nwords]) or "unknown"
 
 
@@ -1856,19 +1931,25 @@ def unit_kinds(o) -> set:
     return R["unit"][key]
 
 
+def unit_key(o) -> tuple:
+    return (o[1], o[2], tuple(o[3]), json.dumps(o[5]))
+
+
 def blame(prog, kind: str) -> str:
     if is_unit_prog(prog):
         o = prog["blocks"][0][2][0]
+        rt()["bad_units"].add(unit_key(o))
         return f"{o[1]}|{o[2]}"
     seen = set()
     for o in prog_ops(prog):
         if not is_unit_op(o):
             continue
-        key = (o[1], o[2], tuple(o[3]), json.dumps(o[5]))
+        key = unit_key(o)
         if key in seen:
             continue
         seen.add(key)
         if kind in unit_kinds(o):
+            rt()["bad_units"].add(key)     # later programs containing it are translated on their own
             return f"{o[1]}|{o[2]}"
     return prog["sig"]
 
@@ -1876,7 +1957,7 @@ def blame(prog, kind: str) -> str:
 def driven_names(prog) -> list[str]:
     out = {"llvm.func"}
     for o in prog_ops(prog):
-        out.add(o[1].replace(".vec", ""))
+        out.add("llvm.bitcast" if o[1] == "llvm.bitcast.vec" else o[1])
     if prog.get("globals"):
         out.add("llvm.mlir.global")
     return sorted(out)
@@ -1887,8 +1968,6 @@ def _record_failure(st: Stats | None, progs, names, res: dict, what_prefix: str 
     stage = res["stage"]
     if st is None:
         return stage
-    ops = sorted({o[1].replace(".vec", "") + ("|" + o[2] if o[2] not in ("-", "none") else "") for p in progs for o in prog_ops(p)
-                  if o[1] not in ("llvm.return", "llvm.mlir.constant")})
     single = len(progs) == 1
     who = blame(progs[0], stage) if single else "functions-in-one-module"
     wit = {"progs": progs, "mlir": module_text(progs, names), "stage": stage, "exception": res["exc"], "message": res["msg"][:300]}
@@ -1906,8 +1985,8 @@ def _record_failure(st: Stats | None, progs, names, res: dict, what_prefix: str 
             st.extra["converter_raises"].append(entry)
     elif stage == "raises-internal":
         st.outcomes[f"raises-internal:{res['exc']}"] += 1
-        if not single or who == progs[0]["sig"]:    # shape programs: the op / construct + the class of the message
-            who = who.split("|")[0] + "|" + err_class(res["msg"], 4)
+        if not single or who == progs[0]["sig"]:    # no single op reproduces it: the class of the message identifies the defect
+            who = err_class(res["msg"], 4)
         st.violate(f"C23|convert|raises-internal|{res['exc']}|{who}",
                    f"{what_prefix}convert_module raised {res['exc']} ({res['msg'].splitlines()[0][:120] if res['msg'] else ''}) on a verified llvm-dialect module", wit)
     elif stage == "llvm-rejects":
@@ -2092,14 +2171,16 @@ def module_pairs():
 def task_programs(task) -> list:
     kind = task[0]
     if kind == "sl":
-        _, k, quick, lo, hi = task[:5]
+        _, k, quick, lo, hi, r, m = task[:7]
         first, rest = sl_levels(quick)[k]
-        return list(sl_programs(int(k[0]), first[lo:hi], rest))
+        return list(itertools.islice(sl_programs(int(k[0]), first[lo:hi], rest), r, None, m))
     if kind == "fam":
         _, fam, shard, nshards = task[:4]
         return [p for i, p in enumerate(FAMILIES[fam]()) if i % nshards == shard]
     if kind == "one":
         return [task[1]]
+    if kind == "slice":
+        return task_programs(task[1])[task[2]:task[3]]
     raise ValueError(task)
 
 
@@ -2112,8 +2193,17 @@ def _work(task) -> Stats:
                 check_batch(st, pair, seed, i)
         return st
     progs = task_programs(task)
+    bad = rt()["bad_units"]
     for i in range(0, len(progs), BATCH):
-        check_batch(st, progs[i:i + BATCH], seed, i)
+        chunk = progs[i:i + BATCH]
+        # a function that fails to translate takes its whole module with it: programs containing an op that is already
+        # known (in this worker) to fail on its own are translated one per module
+        dirty = [p for p in chunk if bad and any(is_unit_op(o) and unit_key(o) in bad for o in prog_ops(p))] if bad else []
+        clean = [p for p in chunk if p not in dirty] if dirty else chunk
+        if clean:
+            check_batch(st, clean, seed, i)
+        for p in dirty:
+            check_batch(st, [p], seed, i)
     return st
 
 
@@ -2122,14 +2212,68 @@ def make_tasks(quick: bool, seed: int) -> list:
     lv = sl_levels(quick)
     for k, (first, _) in lv.items():
         step = {"1": 40, "2": 6 if quick else 2, "3i": 1, "3f": 1}[k]
+        m = 4 if k == "3i" else 1           # the 3-op shards are large: split each round-robin
         for lo in range(0, len(first), step):
-            tasks.append(("sl", k, quick, lo, min(lo + step, len(first)), seed))
+            for r in range(m):
+                tasks.append(("sl", k, quick, lo, min(lo + step, len(first)), r, m, seed))
     for fam, n in (("cfg", 4), ("mem", 6), ("call", 2), ("misc", 4)):
         for s in range(n):
             tasks.append(("fam", fam, s, n, seed))
     for s in range(2):
         tasks.append(("module2", s, 2, seed))
     return tasks
+
+
+def _isolate(ctx, task, status: str) -> None:
+    """bisect the programs of a crashed task (each slice in a fresh process) down to the first crashing program"""
+    if task[0] == "module2":
+        ctx.stats.cap(f"task {task[:3]} ended with {status}")
+        return
+    progs = task_programs(task)
+    lo, hi = 0, len(progs)
+    tmo = ctx.pick(240, 900)
+    dropped = 0
+    while hi - lo > 1:
+        n = min(8, hi - lo)
+        cuts = [lo + (hi - lo) * k // n for k in range(n + 1)]
+        parts = [(cuts[k], cuts[k + 1]) for k in range(n)]
+        res = {}
+        for t2, s2, st2 in kmap(_work, [("slice", task, a, b, ctx.seed) for a, b in parts], timeout_s=tmo):
+            res[(t2[2], t2[3])] = (s2, st2)
+        bad = None
+        for part in parts:
+            s2, st2 = res[part]
+            if s2 == "ok":
+                ctx.merge(st2)
+            elif bad is None:
+                bad = part
+                status = s2
+            else:
+                dropped += part[1] - part[0]
+        if bad is None:
+            ctx.stats.cap(f"task {task[:7]} ended with {status} but no slice of it reproduces that")
+            return
+        lo, hi = bad
+    p = progs[lo]
+    who = p["sig"]
+    units = [o for o in prog_ops(p) if is_unit_op(o)]
+    if is_unit_prog(p):
+        who = f"{units[0][1]}|{units[0][2]}"
+    elif units:
+        rs = {json.dumps(t2[1]["blocks"][0][2][0]): s2 for t2, s2, _ in kmap(_work, [("one", unit_prog(o), ctx.seed) for o in units], timeout_s=60)}
+        for o in units:
+            if rs.get(json.dumps(unit_prog(o)["blocks"][0][2][0]), "ok") != "ok":
+                who = f"{o[1]}|{o[2]}"
+                break
+    one = Stats()
+    _count_program(one, p)
+    one.outcomes[f"jit-{status}"] += 1
+    one.violate(f"C23|jit|{status}|{who}",
+                f"compiling / running the translation of a {p['sig']} program ended the worker process with a {status} "
+                f"(inputs whose reference evaluation is UB are never executed)", {"progs": [p], "mlir": module_text([p], ["f"])})
+    ctx.merge(one)
+    if dropped:
+        ctx.stats.cap(f"{dropped} programs of task {task[:7]} lie in further slices that ended with a crash/timeout and were not re-examined")
 
 
 def run(ctx):
@@ -2143,30 +2287,12 @@ def run(ctx):
             ctx.merge(st)
         else:
             crashed.append((task, status))
-    # a worker died / hung: isolate the program(s) by running every program of the task in its own process call
+    # a worker died / hung (native crash, LLVM fatal error, endless loop): narrow it down to one program
+    crashed.sort(key=lambda c: (c[0][0] != "sl", str(c[0][1]), repr(c[0])))
     for task, status in crashed[:3]:
-        if task[0] == "module2":
-            ctx.stats.cap(f"task {task[:3]} ended with {status}")
-            continue
-        progs = task_programs(task)
-        found = 0
-        for t2, s2, st2 in kmap(_work, [("one", p, ctx.seed) for p in progs], timeout_s=60):
-            if s2 == "ok":
-                ctx.merge(st2)
-                continue
-            found += 1
-            p = t2[1]
-            one = Stats()
-            _count_program(one, p)
-            one.outcomes[f"jit-{s2}"] += 1
-            one.violate(f"C23|jit|{s2}|{p['sig'] if not is_unit_prog(p) else p['blocks'][0][2][0][1] + '|' + p['blocks'][0][2][0][2]}",
-                        f"compiling / running the translation of a {p['sig']} program ended the process with a {s2} (no UB input was executed)",
-                        {"progs": [p], "mlir": module_text([p], ["f"])})
-            ctx.merge(one)
-        if not found:
-            ctx.stats.cap(f"task {task[:5]} ended with {status} but no single program reproduces it")
+        _isolate(ctx, task, status)
     for task, status in crashed[3:]:
-        ctx.stats.cap(f"task {task[:5]} ended with {status} (not isolated)")
+        ctx.stats.cap(f"task {task[:7]} ended with {status} (not isolated)")
 
     supported, notes = supported_converters()
     driven = set(ctx.stats.extra.get("ops_driven", []))
@@ -2176,6 +2302,8 @@ def run(ctx):
     ctx.stats.extra["converter_ops_uncovered"] = uncovered
     if notes:
         ctx.stats.extra["dispatch_table_notes"] = notes
+    if uncovered or notes:
+        ctx.stats.cap(f"converter ops without a generated program: {uncovered}; unread dispatch cases: {notes}")
     lv = sl_levels(quick)
     ctx.bounds = {
         "straight_line": {f"{k}_ops": {"op_schemas": len(f)} for k, (f, r) in lv.items()},
